@@ -100,6 +100,7 @@ c11_new!(c11_new_f32_l3, f32, 3, f32::MIN_POSITIVE);
 //@ assumes: libm::sqrtf by (class) contract
 c11_new!(c11_new_f32_l4, f32, 4, f32::MIN_POSITIVE);
 //@ id: c11_new_f64_l4
+//@ besteffort: yes
 //@ prop: C11
 //@ tier: thorough
 //@ cap: 1500
@@ -168,6 +169,7 @@ macro_rules! c11_sample_beta {
 //@ assumes: libm::{logf,expf} by contract
 c11_sample_beta!(c11_sample_beta_f32, f32);
 //@ id: c11_sample_beta_f64
+//@ besteffort: yes
 //@ prop: C11
 //@ tier: thorough
 //@ cap: 3600
@@ -212,6 +214,7 @@ macro_rules! c11_written {
     };
 }
 //@ id: c11_all_written_f64
+//@ besteffort: yes
 //@ prop: C11
 //@ tier: thorough
 //@ cap: 900
